@@ -341,10 +341,19 @@ func accountsGenE2E(r *Rng) accountsCase {
 		if r.Chance(30) {
 			ls = append(ls, accountsPasswdLines[6])
 		}
-		file("etc/passwd", 0o644, strings.Join(ls, "\n")+"\n")
+		// the last line of a shipped account file need not end in a newline
+		nl := "\n"
+		if r.Chance(35) {
+			nl = ""
+		}
+		file("etc/passwd", 0o644, strings.Join(ls, "\n")+nl)
 	}
 	if r.Chance(70) {
-		file("etc/group", 0o644, strings.Join(accountsGroupLines[:r.Range(1, 4)], "\n")+"\n")
+		nl := "\n"
+		if r.Chance(35) {
+			nl = ""
+		}
+		file("etc/group", 0o644, strings.Join(accountsGroupLines[:r.Range(1, 4)], "\n")+nl)
 	}
 	dir("usr")
 	dir("usr/bin")
@@ -372,7 +381,7 @@ func accountsGenE2E(r *Rng) accountsCase {
 	for k := 0; k < nu; k++ {
 		u := accountsUser{Name: Pick(r, []string{fmt.Sprintf("user%d", k), "nobody", "app"}), UID: Pick(r, []uint32{1000, 1001, 65532, 4294967295, 7}) + uint32(0)}
 		if r.Chance(50) {
-			g := Pick(r, []uint32{u.UID, 100, 4294967295})
+			g := Pick(r, []uint32{u.UID, 100, 4294967295, 0, 0}) // an explicit gid 0 is a gid
 			u.GID = &g
 		}
 		if r.Chance(40) {
@@ -415,6 +424,7 @@ func accountsGenE2E(r *Rng) accountsCase {
 		}
 		c.Muts = append(c.Muts, m)
 	}
+	c.Include = r.Chance(30)
 	return c
 }
 
@@ -442,7 +452,12 @@ func accountsRunE2E(c accountsCase) []Step {
 	repo := BuildSynthRepo(c.Pkgs, []string{"x86_64"})
 	ic := accountsIC(c)
 	ic.Contents.Packages = []string{c.Pkgs[0].Name}
-	out := e2eBuild(ic, repo, E2EOpts{Archs: []string{"x86_64"}})
+	var out E2EOut
+	if c.Include {
+		out = accountsGlueBuildIncluded(ic, repo)
+	} else {
+		out = e2eBuild(ic, repo, E2EOpts{Archs: []string{"x86_64"}})
+	}
 	toks := accountsTokens(c)
 	var descs []string
 	for _, m := range c.Muts {
@@ -450,10 +465,26 @@ func accountsRunE2E(c accountsCase) []Step {
 		descs = append(descs, m.desc())
 	}
 	tags := map[string]struct{}{"kind:e2e": {}}
+	if c.Include {
+		tags["e2e:via-include"] = struct{}{}
+	}
+	for _, u := range c.Users {
+		if u.GID != nil && *u.GID == 0 {
+			tags["e2e:user-gid-0"] = struct{}{}
+		}
+	}
 	for _, m := range c.Muts {
 		tags["e2e:mut:"+m.Type] = struct{}{}
 	}
-	desc := fmt.Sprintf("apko build: %d users, %d groups, run-as=%q, paths[%s]", len(c.Users), len(c.Groups), c.RunAs, strings.Join(descs, "; "))
+	var ud []string
+	for _, u := range c.Users {
+		g := "-"
+		if u.GID != nil {
+			g = fmt.Sprint(*u.GID)
+		}
+		ud = append(ud, fmt.Sprintf("%s uid=%d gid=%s home=%q", u.Name, u.UID, g, u.Home))
+	}
+	desc := fmt.Sprintf("apko build: users [%s], %d groups, run-as=%q, accounts-in-included-file=%v, paths[%s]", strings.Join(ud, "; "), len(c.Groups), c.RunAs, c.Include, strings.Join(descs, "; "))
 	if out.Err != nil {
 		// a failed build promises nothing; it is recorded so that the histogram shows how often it happens
 		tags["e2e:build-failed"] = struct{}{}
@@ -481,6 +512,7 @@ func accountsRunE2E(c accountsCase) []Step {
 	}
 	tr := tar.NewReader(zr)
 	passwdText, groupText := "", ""
+	apkoJSON := []byte(nil)
 	for {
 		h, err := tr.Next()
 		if err == io.EOF {
@@ -496,6 +528,9 @@ func accountsRunE2E(c accountsCase) []Step {
 		}
 		if name == "etc/group" {
 			groupText = string(body)
+		}
+		if name == "etc/apko.json" {
+			apkoJSON = body
 		}
 		// the observation is restricted to what the demands look at (keeps the line short)
 		keep := strings.HasPrefix(name, "made") || strings.HasPrefix(name, "srv") || strings.HasPrefix(name, "usr") || strings.HasPrefix(name, "opt") ||
@@ -524,6 +559,18 @@ func accountsRunE2E(c accountsCase) []Step {
 	}
 	sort.Strings(shipped)
 	toks = append(toks, shipped...)
+	if ra, ok := accountsGlueApkoJSONRunAs(apkoJSON); ok {
+		toks = append(toks, "aj,"+hx(ra))
+	} else {
+		toks = append(toks, "ajbad,")
+	}
+	if opw != "" && !strings.HasSuffix(opw, "\n") {
+		tags["e2e:shipped-passwd-no-final-newline"] = struct{}{}
+	}
+	if ogr != "" && !strings.HasSuffix(ogr, "\n") {
+		tags["e2e:shipped-group-no-final-newline"] = struct{}{}
+	}
+	desc += fmt.Sprintf("; shipped passwd %q, shipped group %q", truncStr(opw, 200), truncStr(ogr, 120))
 	toks = append(toks, "cu,"+hx(cfg.Config.User), "pw,"+hx(passwdText), "gr,"+hx(groupText), "opw,"+hx(opw), "ogr,"+hx(ogr))
 	tags["e2e:built"] = struct{}{}
 	obs := strings.Join(toks, "\t")
